@@ -7,6 +7,7 @@ KINDS = ["refuse", "close", "frames", "partial", "junk", "long"]
 
 class C18(PropBase):
     id = "C18"
+    corr_fields = []
     lean_modules = ["SqModel.Props.C18"]
     extractors = ["tcp"]
     rule = ("fault sequences over {refuse, accept+close, accept+frames+close, accept+partial line+reset, accept+junk bytes+close, accept+frames+6.5 s up+close} "
